@@ -102,7 +102,10 @@ Inst(s) ==
          ELSE IF ~Has(s.sent, "RUNNING") THEN "launching"
          ELSE "nochild"
 
-Ok(s) == s.exec = "ok"
+(* "dying": a goroutine has panicked and the runtime is about to end the process, while the other
+   goroutines still run for a moment.  Only the trace specification uses it (the moment at which the
+   executor's death is recorded is later than the panic); the model goes to "panicked" at once. *)
+Ok(s) == s.exec \in {"ok", "dying"}
 
 (* ========================= requests arriving at the event loop ========================= *)
 
@@ -211,7 +214,7 @@ DoStopBody(s, i) ==
     THEN IF ~s.cmd    \* (after a Kill forgot taskCmd the stop is a no-op: what survives is the Kill's doing)
            THEN {[Answer(s, i, FALSE) EXCEPT !.skDone = TRUE, !.doneBy = IF s.doneBy.r = "Kill" THEN @ ELSE ReqOf(s, i)]}
          ELSE IF s.ps = "nil"
-           THEN IF DevStopNilDeref THEN {[s EXCEPT !.exec = "panicked", !.panBy = ReqOf(s, i)]} ELSE StopKillPath(s, i)
+           THEN IF DevStopNilDeref THEN {[s EXCEPT !.exec = "panicked", !.panBy = ReqOf(s, i), !.hs[i].pc = "dead"]} ELSE StopKillPath(s, i)
          ELSE IF s.ps = "exited" THEN {[Answer(s, i, FALSE) EXCEPT !.skDone = TRUE, !.doneBy = ReqOf(s, i)]}
          ELSE StopKillPath(s, i)
     ELSE {}
@@ -235,7 +238,7 @@ DoKillSend(s, i) ==
    dereference.  (nullBy: the Kill to blame, kept in closeBy, which basic tasks do not use otherwise) *)
 DoReaperStart(s) ==
   IF s.kind # "ctl" /\ s.rst = "pending" /\ Ok(s)
-    THEN IF DevReaperField /\ ~s.cmd THEN {[s EXCEPT !.exec = "panicked", !.panBy = s.closeBy]}
+    THEN IF DevReaperField /\ ~s.cmd THEN {[s EXCEPT !.exec = "panicked", !.panBy = s.closeBy, !.rst = "dead"]}
          ELSE {[s EXCEPT !.rst = "done"]}
     ELSE {}
 (* ... taskCmd.Wait() returns (this is what sets ProcessState) ... *)
@@ -275,7 +278,7 @@ DoLDialTimeout(s) ==
    this goroutine dereference nil. *)
 DoLPoll(s) ==
   IF s.kind = "ctl" /\ s.lpc = "poll" /\ Ok(s)
-    THEN IF s.rpc = "nil" THEN {[s EXCEPT !.exec = "panicked", !.panBy = s.closeBy]}
+    THEN IF s.rpc = "nil" THEN {[s EXCEPT !.exec = "panicked", !.panBy = s.closeBy, !.lpc = "dead"]}
          ELSE IF Listening(s) /\ s.dev = "STANDBY" THEN {[s EXCEPT !.lpc = "wait", !.sent = Append(@, "RUNNING")]}
          ELSE {}
     ELSE {}
@@ -319,7 +322,7 @@ DoTransCommit(s, i) ==    \* cmd.Commit() over gRPC, then the answer (an error i
    walk the device down to DONE with STOP / RESET / EXIT *)
 DoKBody(s, i) ==
   IF IsBody(s, i, {"Kill"}) /\ s.kind = "ctl"
-    THEN IF s.rpc = "nil" THEN {[s EXCEPT !.exec = "panicked", !.panBy = ReqOf(s, i)]}
+    THEN IF s.rpc = "nil" THEN {[s EXCEPT !.exec = "panicked", !.panBy = ReqOf(s, i), !.hs[i].pc = "dead"]}
          ELSE LET kb == IF KillAt(s) # s.killAt THEN ReqOf(s, i) ELSE s.killBy
                   walked == [s EXCEPT !.dev = "DONE", !.hs[i].pc = "close", !.hs[i].reached = "DONE", !.killAt = KillAt(s), !.killBy = kb]
                   broke == [s EXCEPT !.hs[i].pc = "close", !.hs[i].reached = "OTHER", !.killAt = KillAt(s), !.killBy = kb]
@@ -414,11 +417,11 @@ Spec == Init /\ [][Next]_vars
 (* ========================= properties ========================= *)
 
 TypeOK ==
-  /\ kind \in {"basic", "hook", "ctl"} /\ exec \in {"ok", "panicked"}
+  /\ kind \in {"basic", "hook", "ctl"} /\ exec \in {"ok", "panicked"}   \* ("dying" never arises in the model itself)
   /\ child \in {"none", "running", "exiting", "waited", "reaped"} /\ ps \in {"nil", "exited", "signaled"}
   /\ pend \in {"none", "KILLED", "FINISHED"} /\ procd <= Len(sent) /\ Len(hs) <= MaxReq
   /\ \A i \in 1..Len(sent) : sent[i] \in {"RUNNING", "FINISHED", "FAILED", "KILLED"}
-  /\ rpc \in {"nil", "up"} /\ lpc \in {"none", "dial", "poll", "wait", "send", "done"}
+  /\ rpc \in {"nil", "up"} /\ lpc \in {"none", "dial", "poll", "wait", "send", "done", "dead"}
 
 (* at most one terminal status, and nothing after it *)
 OneTerminalOf(q) == \A i \in 1..Len(q) : Terminal(q[i]) => i = Len(q)
